@@ -240,6 +240,13 @@ def run_job(ctx, job):
         def wire_cases(draw):
             case = draw(c01.cases(job["op"]))
             case["micro_first"] = draw(st.integers(0, 3)) == 0
+            micro = case["cfg"]["identity"]["product_name"].startswith("2080")
+            if not micro and draw(st.integers(0, 3)) == 0:
+                # the controller is reached along a written-out route of 1-3 hops (ending on a slot or on a network address): every
+                # Forward Open / Unconnected Send of the scenario must carry exactly that route
+                hops = [[draw(st.sampled_from(["bp", "backplane", "enet", 1, 2, 3])), draw(st.one_of(st.integers(0, 16), ipv4))] for _ in range(draw(st.integers(1, 3)))]
+                case["path"] = "192.168.1.10/" + "/".join(f"{p_}/{l}" for p_, l in hops)
+                case["cfg"] = dict(case["cfg"], expected_route=RP.enc_route([(RP.PORT_NAMES.get(p_, p_) if isinstance(p_, str) else p_, l) for p_, l in hops]))
             return case
 
         hyp_search(ctx, "wire", wire_cases(), lambda case: (check_wire(case), True, ["wire"] + (["wire.after-micro800"] if case.get("micro_first") else [])),
